@@ -65,7 +65,7 @@ def gen_inputs(tier, rng):
             g = mg.get(v)
             if g is None:
                 g = mg[v] = gen.MsgGen(rng, version=v)
-            mt = rng.choice(sorted(g.lib.MESSAGES))
+            mt = rng.choice(g.structures())
             try:
                 t, _, _ = g.message(mt, 'random', rich=rng.random() < .5, perturb=rng.random() < .5)
             except Exception:  # noqa
